@@ -588,6 +588,7 @@ pub fn run(op: &str, a: &Args) -> Option<Outcome> {
         ["info", kind, opn] => Some(info_op(kind, opn, a)),
         ["dom", kind, opn] => Some(dom_op(kind, opn, a)),
         ["order", "script"] => Some(crate::ops_more::order_script(arg(a, "script"))),
+        ["xpath", "corpus_order"] => Some(crate::ops_seq::xpath_corpus_order(arg(a, "doc").parse().unwrap_or(0), arg(a, "query"), arg(a, "expected"))),
         ["xpath", "corpus"] | ["xpath", "corpus_paths"] | ["xpath", "corpus_scalars"] | ["xpath", "corpus_scalars0"] | ["xpath", "corpus_names"] => Some(crate::ops_seq::xpath_corpus(arg(a, "doc").parse().unwrap_or(0), arg(a, "query"), arg(a, "expected"))),
         ["xpath", rest @ ..] => crate::ops_more::xpath_op(rest, a),
         ["ctx", "script"] => Some(crate::ops_more::ctx_script(arg(a, "script"))),
@@ -596,6 +597,7 @@ pub fn run(op: &str, a: &Args) -> Option<Outcome> {
         ["dom", "attr_seq"] | ["dom", "attr_seq1"] => Some(crate::ops_seq::dom_attr_seq(arg(a, "ops"))),
         ["dom", "seq_tree"] | ["dom", "seq1_tree"] => Some(crate::ops_seq::dom_seq(arg(a, "ops"), "tree")),
         ["dom", "seq_atomic"] | ["dom", "seq1_atomic"] => Some(crate::ops_seq::dom_seq(arg(a, "ops"), "atomic")),
+        ["dom", "seq_order"] | ["dom", "seq1_order"] => Some(crate::ops_seq::dom_seq(arg(a, "ops"), "order")),
         ["dom", "attr_owner"] => Some(crate::ops_more::dom_attr_owner(arg(a, "scenario"))),
         ["dom", "factory"] => Some(crate::ops_more::dom_factory(arg(a, "kind"), arg(a, "data"))),
         ["dom", "views_after_edits"] => Some(crate::ops_more::dom_after_edits(arg(a, "scenario"), "views")),
@@ -761,6 +763,16 @@ pub fn grid(op: &str, limit: usize) -> (usize, Vec<(Args, Outcome)>) {
                 try_one(mk(&[("scenario", sc)]), &mut n, &mut bad);
             }
         }
+        ["xpath", "corpus_order"] => {
+            for line in crate::ops_seq::XPATH_CORPUS.lines() {
+                let mut it = line.splitn(3, '\t');
+                let (d, q, e) = (it.next().unwrap_or(""), it.next().unwrap_or(""), it.next().unwrap_or(""));
+                if e.starts_with("NS:") {
+                    let q = crate::ops_more::unescape_line(q);
+                    try_one(mk(&[("doc", d), ("query", q.as_str()), ("expected", e)]), &mut n, &mut bad);
+                }
+            }
+        }
         ["xpath", "corpus"] | ["xpath", "corpus_paths"] | ["xpath", "corpus_scalars"] | ["xpath", "corpus_scalars0"] | ["xpath", "corpus_names"] => {
             // corpus_names: documents 1 and 5 (namespaces); corpus_paths: node-set results of the other documents; corpus_scalars: the rest
             for line in crate::ops_seq::XPATH_CORPUS.lines() {
@@ -793,13 +805,13 @@ pub fn grid(op: &str, limit: usize) -> (usize, Vec<(Args, Outcome)>) {
                 }
             }
         }
-        ["dom", "seq1_tree"] | ["dom", "seq1_atomic"] => {
+        ["dom", "seq1_tree"] | ["dom", "seq1_atomic"] | ["dom", "seq1_order"] => {
             // the single operations only (quick tier)
             for o in crate::ops_seq::single_ops().iter().chain(crate::ops_seq::special_ops().iter()) {
                 try_one(mk(&[("ops", o.as_str())]), &mut n, &mut bad);
             }
         }
-        ["dom", "seq_tree"] | ["dom", "seq_atomic"] => {
+        ["dom", "seq_tree"] | ["dom", "seq_atomic"] | ["dom", "seq_order"] => {
             // every single operation, then every performed first step (one per distinct resulting tree) followed by every operation
             let singles = crate::ops_seq::single_ops();
             for o in singles.iter().chain(crate::ops_seq::special_ops().iter()) {
